@@ -52,7 +52,7 @@ def call_one(fn):
     return "node", (tuple(n.location), id(n.value))
 
 
-def all_paths(jp, env, text, doc):
+def all_paths(jp, env, text, doc, other=None):
     res = {}
     res["module.find"] = call_list(lambda: jp.find(text, doc))
     res["module.finditer"] = call_list(lambda: jp.finditer(text, doc))
@@ -76,6 +76,21 @@ def all_paths(jp, env, text, doc):
         res["%s.finditer" % label] = call_list(lambda: c.finditer(doc))
         ones["%s.find_one(again)" % label] = call_one(lambda: c.find_one(doc))
         res["%s.find(again)" % label] = call_list(lambda: c.find(doc))
+        if other is not None:
+            # a suspended finditer() resumed after the same compiled query was applied to another document
+            def interleaved():
+                it = iter(c.finditer(doc))
+                try:
+                    yield next(it)
+                except StopIteration:
+                    return
+                try:
+                    c.find_one(other)
+                    c.find(other)
+                except Exception:  # noqa: BLE001
+                    pass
+                yield from it
+            res["%s.finditer(suspended across another document)" % label] = call_list(interleaved)
     return res, ones
 
 
@@ -90,7 +105,7 @@ def judge(res, ones):
             if elems is not None or err != ref_err:
                 return "invalid-query-disagreement", {"path": k, "got": [elems is not None and len(elems), err], "reference": ["raises", ref_err]}
             continue
-        lazy = k.endswith("finditer")
+        lazy = "finditer" in k
         if ref_err is None:
             if err is not None or elems != ref_elems:
                 return "result-disagreement", {"path": k, "got": [len(elems) if elems is not None else None, err], "reference": [len(ref_elems), None]}
@@ -193,7 +208,7 @@ def run_shard(spec, rec):
             rec.wal({"query": t, "document": D.short(doc, 300)})
             try:
                 with guard(60):
-                    res, ones = all_paths(jp, env, t, doc)
+                    res, ones = all_paths(jp, env, t, doc, other=D.doc_for(R, q, maxdepth=3, maxwidth=3) if R.random() < 0.5 else None)
             except CaseTimeout:
                 rec.timeout(t)
                 continue
